@@ -45,6 +45,14 @@ check(
     "DESIGN.md section 5, C14",
 )
 
+check(
+    "C15", "hist",
+    "Seeded search over histories of solve / Save_Iter / folder change / Get_results / Set_Iter / Result(iter=i) / mesh replacement / time-scheme switch / Save / Load_Simu / Mesh.Save+Load_Mesh / scribbling on returned arrays, for Elastic (static and dynamic), Thermal, PhaseField, InElastic, HyperElastic and WeakForms simulations with 1-3 meshes in one history, on a simulated disk. Oracle: deep-copied snapshots taken when each iteration was saved (fields, internal variables, mesh digest, named results); after every operation every stored iteration is re-read and compared exactly. A separate fault batch injects EIO/ENOSPC/EACCES on open/write/read and process kills (clean and torn) inside Save_Iter/Save/Get_results/Set_Iter/Load_Simu with the narrowed oracle 'may fail, never wrong data', including restart from what the disk holds.",
+    "Trusted: the snapshot recorder (deep copies through public getters plus the two name-mangled state attributes the property's anchors name: InElastic committed variables, PhaseField history field), pickle, the tmpfs under the simulated disk. Process kill semantics: bytes accepted by write() survive (no power-loss model). Velocity/acceleration are compared after Set_Iter only when the scheme active at restore time stores them. Two open findings are steered around in the random batch and reproduced from their own replay files (known_findings.json).",
+    "deterministic simulation with disk-fault and crash injection: seeded op/fault sequences vs snapshot reference model, ddmin-minimised replay files",
+    "DESIGN.md section 5, C15",
+)
+
 ENGINES = [
     {"name": "simkit", "path": "/verif/simkit", "serves_properties": sorted(CHECKS), "kind_free_text": "deterministic simulator: seeded scheduler of public-API operations, fault-injecting file/solver/clock seams installed by module-attribute injection, reference models, ddmin shrinker, replay"},
 ]
@@ -64,6 +72,11 @@ MANIFEST = {
     "notes": "All checks honour VERIF_SEED, VERIF_TIER, VERIF_REPO (tree to import EasyFEA from, default /repo) and VERIF_WORKERS. Exit 0 clean / 1 VIOLATION / 2 harness error. Fixed findings are listed in known_findings.json and their minimised traces are replayed from regress/<id>/ by every run.",
     "not_applicable": [{"property_id": k, "reason": v} for k, v in sorted(NA.items()) if k not in CHECKS],
 }
+ALL = ["C%02d" % i for i in range(1, 21)]
+for _p in ALL:
+    if _p not in CHECKS and _p not in NA:
+        MANIFEST["not_applicable"].append({"property_id": _p, "reason": "Simulation target per DESIGN.md, but its check is not registered yet in this commit (engine under construction); not claimed until it runs clean and its sensitivity has been shown."})
+MANIFEST["not_applicable"].sort(key=lambda d: d["property_id"])
 
 if __name__ == "__main__":
     path = os.path.join(HERE, "MANIFEST.json")
